@@ -9,11 +9,14 @@ PROP = dict(
           "negative controls one block before CSV/CLTV maturity and with a wrong preimage) and sees the peer's current "
           "and pending commitments confirm (to_remote, direct HTLC claims, anchors); every spend runs through btcd's "
           "script interpreter with standard flags against the real previous outputs, and the set of resolutions must "
-          "equal the outputs the bookkeeping model assigns to that side. Non-trivial = >=2 HTLC spends validated and "
+          "equal the outputs the bookkeeping model assigns to that side; in the contractcourt job also the inputs the real "
+          "utxo nursery builds for pre-anchor second-level outputs (counters nursery_inputs_validated, nursery_input:<witness type>). "
+          "Non-trivial = >=2 HTLC spends validated and "
           "(a pending remote commitment, a post-reload state, or a duplicate HTLC). Distinct = distinct (params, trace, phase)."),
     assumptions=[
         "lnwallet job: witness types per channel type are chosen by the harness with the same case analysis as contractcourt's resolvers; contractcourt's OWN selection of witness types / input constructors / lock times is exercised by the contractcourt job TestVerifC05Resolvers (real ChannelArbitrator + resolvers on the real close summaries, every input handed to a capturing sweeper stub is assembled like sweep/txgenerator.go, signed by its own CraftInputScript and run through the interpreter against the actual previous outputs, incl. second-level outputs; see notes/C05b.md)",
-        "contractcourt job: the utxo nursery's own input construction for legacy second-level outputs is not driven (the second-level txs it is handed / that are published are validated); received HTLCs are treated as forwards (preimages come from the witness beacon); sweeps confirm regardless of height (maturity is checked by the interpreter with the sweeper's sequence/locktime convention plus one-block-early negative controls)",
+        "contractcourt job: for channel types without zero-fee second-level transactions (legacy, tweakless, plain anchors) the REAL UtxoNursery runs behind IncubateOutputs on a real NurseryStore in the close's bolt file (rig ccnursery_test.go / c05_nursery_test.go): it publishes the timeout tx itself (validated against the commitment output; must not be published before its CLTV), gets lazily pumped confirmations, the chain is advanced to every height at which its store holds a class, and every input it hands to its sweeper (kid outputs read back from the store: HtlcOfferedTimeoutSecondLevel / HtlcAcceptedSuccessSecondLevel) is validated exactly like the resolvers' inputs against the actual output of the real second-level tx, incl. the one-block-early CSV control, plus: not handed over before the tip after which it can be mined (confirmation height + CSV, CLTV). The nursery is never handed a commitment output by the current resolvers (commitSweepResolver sweeps it), so none occurs. Witness types that share one witness generator (all second-level / to_local CSV spends produce <sig> <> <script>) are validity-neutral and not distinguished",
+        "contractcourt job: received HTLCs are treated as forwards (preimages come from the witness beacon); resolver sweeps confirm regardless of height (maturity is checked by the interpreter with the sweeper's sequence/locktime convention plus one-block-early negative controls); the chain jumps between the heights at which resolvers or the nursery act",
         "the height-0 commitment carries a fixture signature and is not validated (counted skipped)",
         "BIP68/BIP65 maturity is checked through the interpreter's CSV/CLTV opcodes with the sweeper's sequence/locktime convention",
     ],
